@@ -9,10 +9,10 @@ What is proved
      (height, contract storage hence state root, execution results, getter answers), from any two nodes that
      agree on contract storage (they may differ in backend contents below it, layer structure, mempool).
   2. policy_cache_coherent — the Policy cache equals InitializeCache(storage) after every block (all ops).
-  3. The NEO committee cache is NOT restart-transparent in the code as written:
-     neo_restart_divergence_witness / neo_cache_not_coherent_witness (concrete history, `decide`);
-     neo_cache_coherent_partial + natives_schedule_independent_partial: it is, for histories that never
-     block/unblock/destroy a public-key account.
+  3. neo_cache_coherent + natives_schedule_independent — the NEO committee cache is restart-transparent for ALL
+     operations (since fix d4da6a2 Policy.blockAccount/unblockAccount mark the committee outdated; before it
+     the witness history below made a restarted replica diverge — it is kept as regression example:
+     neo_restart_regression_witness shows the two replicas now agree).
   4. map_ranges_classified — every iteration over a Go map found by the extractor in the consensus-critical
      packages is classified (regenerated table, `decide`).
 -/
@@ -110,133 +110,63 @@ def wSchedB : List WStep := wBlocks.map Step.addBlock ++ [Step.restart, Step.add
 def wA : NNode := run (nativeSys wCfg) (genesisNode wCfg wHolder) wSchedA
 def wB : NNode := run (nativeSys wCfg) (genesisNode wCfg wHolder) wSchedB
 
-/-- (C01 is violated by the code as written) Same blocks, one clean restart: the two replicas answer
-    ComputeNextBlockValidators differently at height 7 (A keeps the stale elected committee [K1], B falls back
-    to the standby order [K0]); from height 8 the committee record in storage, hence the state root, differs. -/
-theorem neo_restart_divergence_witness :
+/-- (regression witness, DESIGN §6 item 13 / fix d4da6a2) Same blocks, one clean restart: both replicas answer
+    ComputeNextBlockValidators with [K0] at height 7 (K0's account is blocked, one eligible candidate is not
+    enough, the standby order applies) — before the fix the never-restarted replica answered [K1]. -/
+theorem neo_restart_regression_witness :
     blocksOf wSchedA = blocksOf wSchedB ∧
-    (observe (nativeSys wCfg) wA).getters ≠ (observe (nativeSys wCfg) wB).getters ∧
-    (observe (nativeSys wCfg) wA).getters.newEpochValidators = [1] ∧
+    (observe (nativeSys wCfg) wA).getters = (observe (nativeSys wCfg) wB).getters ∧
+    (observe (nativeSys wCfg) wA).getters.newEpochValidators = [0] ∧
     (observe (nativeSys wCfg) wB).getters.newEpochValidators = [0] := by decide
 
-/-- the same fact as a statement about the cache: after the seven blocks the running node's NEO cache is not
-    what InitializeCache builds from its own storage (`cache_coherent` is false for the NEO committee cache). -/
-theorem neo_cache_not_coherent_witness :
-    ∃ st, wA.read () = some st ∧ getters wA.cache ≠ getters (initCaches wCfg st wA.height) :=
-  ⟨(wA.read ()).get (by decide), by simp, by decide⟩
-
-/-- (C01, cache_coherent for NEO, partial) Over a block that contains no block/unblock/destroy of a public-key
-    account, an adequate NEO cache (committee, validators, next-epoch values as pinned by storage; votesChanged
-    false only if the committee inputs are unchanged) stays adequate, and so does the Policy cache.
-    FULL statement (false as the witness above shows): the same without the `safeOp` hypothesis. Missing: the
-    code does not set votesChanged in Policy.blockAccount/unblockAccount (policy.go:668-719). -/
-theorem neo_cache_coherent_partial (cfg : Cfg) (st : Storage) (c : Caches) (h : Nat) (txs : List Tx)
-    (hs : ∀ tx ∈ txs, safeOp tx.op = true) (hp : c.policy = initPolicy st) (hg : NeoGood cfg st c.neo h) :
+/-- (C01, cache_coherent for NEO) Over ANY block an adequate NEO cache (committee, validators, next-epoch values
+    as pinned by storage; votesChanged false only if the committee inputs are unchanged) stays adequate, and
+    the Policy cache stays equal to InitializeCache(storage). -/
+theorem neo_cache_coherent (cfg : Cfg) (st : Storage) (c : Caches) (h : Nat) (txs : List Tx)
+    (hp : c.policy = initPolicy st) (hg : NeoGood cfg st c.neo h) :
     (applyBlock cfg st c (h + 1) txs).2.1.policy = initPolicy (applyBlock cfg st c (h + 1) txs).1 ∧
     NeoGood cfg (applyBlock cfg st c (h + 1) txs).1 (applyBlock cfg st c (h + 1) txs).2.1.neo (h + 1) :=
-  applyBlock_good cfg st c h txs hs hp hg
+  applyBlock_good cfg st c h txs hp hg
 
 /-- a restart always yields an adequate NEO cache -/
 theorem restart_cache_good (cfg : Cfg) (st : Storage) (h : Nat) : NeoGood cfg st (initNeo cfg st h) h :=
   initNeo_good cfg st h
 
-/-- all blocks of a schedule are free of block/unblock/destroy of public-key accounts -/
-def SafeSchedule (σ : List (Step Unit (List Tx) Unit)) : Prop :=
-  ∀ b ∈ blocksOf σ, ∀ tx ∈ b, safeOp tx.op = true
-
-instance (σ : List (Step Unit (List Tx) Unit)) : Decidable (SafeSchedule σ) :=
-  inferInstanceAs (Decidable (∀ b ∈ blocksOf σ, ∀ tx ∈ b, safeOp tx.op = true))
-
-theorem sanitize_id (b : List Tx) (h : ∀ tx ∈ b, safeOp tx.op = true) : b.map sanitize = b := by
-  induction b with
-  | nil => rfl
-  | cons t r ih =>
-    simp only [List.map]
-    rw [ih (fun x hx => h x (List.mem_cons_of_mem _ hx))]
-    have := h t List.mem_cons_self
-    simp [sanitize, this]
-
-theorem run_safe_eq (cfg : Cfg) (σ : List (Step Unit (List Tx) Unit)) :
-    ∀ (n : NNode), SafeSchedule σ → run (safeSys cfg) n σ = run (nativeSys cfg) n σ := by
-  induction σ with
-  | nil => intro n _; rfl
-  | cons s ss ih =>
-    intro n hs
-    cases s with
-    | addBlock b =>
-      have hb : ∀ tx ∈ b, safeOp tx.op = true := hs b (by simp [blocksOf])
-      have hss : SafeSchedule ss := fun b' hb' => hs b' (by simp [blocksOf, hb'])
-      have : step (safeSys cfg) n (Step.addBlock b) = step (nativeSys cfg) n (Step.addBlock b) := by
-        simp only [step, safeSys, sanitize_id b hb]
-      simp only [run, this]
-      exact ih _ hss
-    | flush => exact ih _ (fun b' hb' => hs b' (by simpa [blocksOf] using hb'))
-    | restart => exact ih _ (fun b' hb' => hs b' (by simpa [blocksOf] using hb'))
-    | gc ks => exact ih _ (fun b' hb' => hs b' (by simpa [blocksOf] using hb'))
-    | poolTx t => exact ih _ (fun b' hb' => hs b' (by simpa [blocksOf] using hb'))
-
-theorem compute_genesis (cfg : Cfg) (holder : Acct) :
-    computeCommittee cfg (genesisStorage cfg holder) [] = (genesisStorage cfg holder).committee := by
-  simp [computeCommittee, genesisStorage, eligible, sortCands, alGet, totalSupply]
-
-theorem initNeo_committee (cfg : Cfg) (st : Storage) (h : Nat) : (initNeo cfg st h).committee = st.committee := by
-  unfold initNeo; split <;> rfl
-
-theorem initNeo_nextValidators (cfg : Cfg) (st : Storage) (h : Nat) :
-    (initNeo cfg st h).nextValidators = validatorsOf cfg st.committee := by
-  unfold initNeo; split <;> rfl
-
-theorem genesis_good (cfg : Cfg) (holder : Acct) :
-    Good cfg (genesisNode cfg holder).read (genesisNode cfg holder).cache 0 := by
-  refine ⟨genesisStorage cfg holder, rfl, rfl, ?_⟩
-  have hc := compute_genesis cfg holder
-  have hb : (genesisStorage cfg holder).blocked = [] := rfl
-  refine ⟨initNeo_committee cfg _ 0, initNeo_nextValidators cfg _ 0, ?_, ?_, ?_⟩
-  · have e1 : (genesisNode cfg holder).cache.neo.newEpochCommittee =
-        computeCommittee cfg (genesisStorage cfg holder) (genesisStorage cfg holder).blocked := rfl
-    rw [e1]; unfold pinned; rw [hb, hc]; split <;> rfl
-  · have e2 : (genesisNode cfg holder).cache.neo.newEpochNextValidators =
-        validatorsOf cfg (computeCommittee cfg (genesisStorage cfg holder) (genesisStorage cfg holder).blocked) := rfl
-    rw [e2]; unfold pinned; rw [hb, hc]; split <;> rfl
-  · intro _; rw [hb]; exact hc
-
-/-- (C01 for the modelled natives, partial) From genesis, any two schedules with the same blocks — none of which
-    blocks/unblocks/destroys a public-key account — give the same observation: Policy values, committee,
-    validators, next-epoch validators, the whole modelled storage (candidates, votes, balances, blocked list)
-    and the per-transaction results, however the node flushed, restarted, collected garbage or pooled.
-    FULL statement: without `SafeSchedule`; refuted by `neo_restart_divergence_witness`. -/
-theorem natives_schedule_independent_partial (cfg : Cfg) (holder : Acct)
-    (σ₁ σ₂ : List (Step Unit (List Tx) Unit)) (hb : blocksOf σ₁ = blocksOf σ₂)
-    (h1 : SafeSchedule σ₁) (h2 : SafeSchedule σ₂) :
+/-- (C01 for the modelled natives) From genesis, for any committee configuration, any two schedules of
+    addBlock/flush/restart/gc/poolTx with the same blocks — ANY transactions — give the same observation:
+    Policy values, committee, validators, next-epoch validators, the whole modelled storage (candidates,
+    votes, balances, blocked list) and the per-transaction results, however the node flushed, restarted,
+    collected garbage or pooled. -/
+theorem natives_schedule_independent (cfg : Cfg) (holder : Acct)
+    (σ₁ σ₂ : List (Step Unit (List Tx) Unit)) (hb : blocksOf σ₁ = blocksOf σ₂) :
     observe (nativeSys cfg) (run (nativeSys cfg) (genesisNode cfg holder) σ₁) =
     observe (nativeSys cfg) (run (nativeSys cfg) (genesisNode cfg holder) σ₂) := by
   have hg := genesis_good cfg holder
-  have hs : stateView (safeSys cfg) (genesisNode cfg holder).read = (genesisNode cfg holder).read := stateView_safe cfg _
-  have h0 : Sim (safeSys cfg) (Good cfg) (genesisNode cfg holder) (genesisNode cfg holder) :=
+  have hs : stateView (nativeSys cfg) (genesisNode cfg holder).read = (genesisNode cfg holder).read := stateView_native cfg _
+  have h0 : Sim (nativeSys cfg) (Good cfg) (genesisNode cfg holder) (genesisNode cfg holder) :=
     ⟨rfl, rfl, rfl, by rw [hs]; exact hg, by rw [hs]; exact hg⟩
-  have := observe_independent_of_schedule (safeSys cfg) (safeSys_adequate cfg) _ _ h0 σ₁ σ₂ hb
-  rw [run_safe_eq cfg σ₁ _ h1, run_safe_eq cfg σ₂ _ h2] at this
-  exact this
+  exact observe_independent_of_schedule (nativeSys cfg) (nativeSys_adequate cfg) _ _ h0 σ₁ σ₂ hb
 
-/-- (C01 for the modelled natives AS WRITTEN, all operations incl. blockAccount of candidates) Without restarts
-    the observation does not depend on when and how often the node flushes, collects garbage or pools. -/
+-- non-vacuity: the regression witness itself (blockAccount of a candidate, restart after it) is an instance
+example : observe (nativeSys wCfg) wA = observe (nativeSys wCfg) wB :=
+  natives_schedule_independent wCfg wHolder wSchedA wSchedB (by decide)
+
+/-- (C01 for the modelled natives, restart-free part, needs no cache invariant) Without restarts the observation
+    does not depend on when and how often the node flushes, collects garbage or pools. -/
 theorem natives_flush_gc_pool_invisible (cfg : Cfg) (n₁ n₂ : NNode) (h0 : SimEq (nativeSys cfg) n₁ n₂)
     (σ₁ σ₂ : List (Step Unit (List Tx) Unit)) (hb : blocksOf σ₁ = blocksOf σ₂)
     (h1 : noRestart σ₁ = true) (h2 : noRestart σ₂ = true) :
     observe (nativeSys cfg) (run (nativeSys cfg) n₁ σ₁) = observe (nativeSys cfg) (run (nativeSys cfg) n₂ σ₂) :=
   observe_independent_of_flush_gc_pool (nativeSys cfg)
-    (by intro rd c h b
-        have : stateView (nativeSys cfg) rd = rd := by funext k; simp [stateView, nativeSys]
-        rw [this])
+    (by intro rd c h b; rw [stateView_native])
     n₁ n₂ h0 σ₁ σ₂ hb h1 h2
 
--- non-vacuity: the witness history (with the blockAccount) under a flush/gc/pool schedule
 example : observe (nativeSys wCfg) (run (nativeSys wCfg) (genesisNode wCfg wHolder) wSchedA) =
     observe (nativeSys wCfg) (run (nativeSys wCfg) (genesisNode wCfg wHolder)
       (wSchedA.take 3 ++ [Step.flush, Step.gc [()], Step.poolTx ()] ++ wSchedA.drop 3 ++ [Step.flush])) :=
   natives_flush_gc_pool_invisible wCfg _ _ ⟨rfl, rfl, rfl, rfl⟩ _ _ (by decide) (by decide) (by decide)
 
--- non-vacuity: the witness blocks without the blockAccount are a safe history with an elected committee; a
+-- non-vacuity: the witness blocks without the blockAccount are a history with an elected committee; a
 -- schedule with flushes, a restart and GC agrees with the plain one (instance of the theorem), and the
 -- committee really is the elected one (computed).
 def sBlocks : List (List Tx) := wBlocks.take 5 ++ [[wTx [.key 3] (.neoTransfer (.key 3) (.key 2) 5)], []]
@@ -246,7 +176,7 @@ def sSched2 : List WStep :=
 
 example : observe (nativeSys wCfg) (run (nativeSys wCfg) (genesisNode wCfg wHolder) sSched1) =
     observe (nativeSys wCfg) (run (nativeSys wCfg) (genesisNode wCfg wHolder) sSched2) :=
-  natives_schedule_independent_partial wCfg wHolder sSched1 sSched2 (by decide) (by decide) (by decide)
+  natives_schedule_independent wCfg wHolder sSched1 sSched2 (by decide)
 
 example : (observe (nativeSys wCfg) (run (nativeSys wCfg) (genesisNode wCfg wHolder) sSched2)).getters.committee = [0, 1] ∧
     (observe (nativeSys wCfg) (run (nativeSys wCfg) (genesisNode wCfg wHolder) sSched2)).getters.nextValidators = [1] ∧
